@@ -25,7 +25,10 @@ TRUSTED_BASE = [
     "operand pairs (negative, zero, 2^63, 10^30); trusted: the symbolic int (an int subclass) behaves like an int wherever the code "
     "does not inspect type()/id() (rejected by an AST check)",
     "Model/Cap.lean lifts the generated field operators over the field list and models references as a store + environment "
-    "(object id = position); checked differentially on single operations and on whole programs with aliasing",
+    "(object id = position); checked differentially on single operations and on whole programs with aliasing; that every result is a NEW "
+    "object (result_is_fresh: `step` allocates for every bin / aug / free statement) is tied to the code by the object identities compared "
+    "in the program correspondence and by the oracle's freshness check (`is not` either operand / FreeCapacity.total, all-zero and equal "
+    "operands included, then the result is updated in place and the operands re-read)",
     "Python int arithmetic modelled by Lean Int; f'{v:,}' modelled by Cap.fmtComma (differential only)",
 ]
 ASSUMPTIONS = ["both operands are Capacities with the class's current field list (pickles of older versions are outside the quantifier)"]
